@@ -1539,11 +1539,13 @@ def task_misc(ctx, repo, m):
     ex = executor(repo, m, 'copy_properties', contracts={
         'ParticleArray.get_carray': CalleeContract(
             lambda e, s_, a, kw, nn: a[0].attrs['properties'][a[1]])})
+    ex.contracts['ParticleArray.get_number_of_particles'] = CalleeContract(
+        lambda e, s_, a, kw, nn: n)
     si, ei = z3.Int('start_index'), z3.Int('end_index')
     try:
         outs = ex.exec_function(fn, dict(self=obj, source=src,
                                          start_index=si, end_index=ei),
-                                State(pc=[]))
+                                State(pc=[si >= 0, ei >= 0]))
         got = {c[0]: c[1] for c in calls}
         ok = len(outs) == 1 and sorted(got) == ['v', 'x'] and all(
             got[nm][0] is sprops[nm] and S.same(got[nm][1], si) and
@@ -1551,6 +1553,22 @@ def task_misc(ctx, repo, m):
             for nm in ('v', 'x'))
         obs.append(Obligation('copy_properties.common_props_own_stride', [],
                               z3.BoolVal(bool(ok)), W,
+                              extra=dict(calls=str(calls)[:300])))
+        # the indices are PARTICLE indices.  The callee (cyarray's
+        # copy_subset, outside the repository) reads a missing end_index as
+        # the length of the array in VALUES -- the number of particles only
+        # for stride 1 -- so the defaults are resolved here: every column
+        # gets the particle range [0, number of particles)
+        del calls[:]
+        outs = ex.exec_function(fn, dict(self=obj, source=src,
+                                         start_index=-1, end_index=-1),
+                                State(pc=[n >= 0]))
+        got = {c[0]: c[1] for c in calls}
+        ok = len(outs) >= 1 and sorted(got) == ['v', 'x'] and all(
+            S.same(got[nm][1], 0) and S.same(got[nm][2], n) and
+            got[nm][3] == {'v': 3}.get(nm, 1) for nm in ('v', 'x'))
+        obs.append(Obligation('copy_properties.default_range_is_in_particles',
+                              [], z3.BoolVal(bool(ok)), W,
                               extra=dict(calls=str(calls)[:300])))
     except VCError as e:
         ctx.outside('misc.copy_properties', str(e))
